@@ -514,24 +514,235 @@ func keepRun(r *vh.Run, idx int) {
 	_ = ca.DeleteAll()
 }
 
+// blockRun: callbacks that block.  The harness parks one cleanup (or the pre hook before it) on a gate it owns, so
+// that "while the cleanup has not returned" is a logical interval, not a matter of timing:
+//
+//	modes 0/1  Delete / DeleteAll with the cleanup of one entry parked: every observation (Get, List, IsEmpty) that
+//	           returns before the gate opens must still see the entry (it has not been cleaned successfully yet);
+//	           after the gate opens the entry is gone iff the cleanup reported success.
+//	modes 2/3  timer expiry with the pre hook parked: a Get (2) or a replacing Set (3) made while it is parked is a
+//	           use, so no cleanup of that key's current value may start less than Age after it.
+//
+// An observer that does not return while the gate is closed (an implementation may hold its lock there) gives no
+// verdict; the watchdogs only decide "no verdict", never a violation.
+func blockRun(r *vh.Run, idx int) {
+	rng := r.Rand(3_000_000 + idx)
+	mode := idx % 4
+	const target = int64(1000)
+	gate := make(chan struct{})
+	started := make(chan struct{}, 64)
+	fail := rng.Intn(2) == 0
+	base := time.Now()
+	now := func() int64 { return int64(time.Since(base)) }
+	var mu sync.Mutex
+	cleaned := map[int64]bool{}
+	pruneStart := map[int64][]int64{}
+	age := time.Duration(0)
+	if mode >= 2 {
+		age = []time.Duration{15 * time.Millisecond, 30 * time.Millisecond}[rng.Intn(2)]
+	}
+	o := cache.Opts[int, int64]{Age: age, PruneFn: func(k int, v int64) error {
+		mu.Lock()
+		pruneStart[v] = append(pruneStart[v], now())
+		mu.Unlock()
+		if v == target && mode < 2 {
+			started <- struct{}{}
+			<-gate
+			if fail {
+				return fmt.Errorf("cleanup failed")
+			}
+		}
+		mu.Lock()
+		cleaned[v] = true
+		mu.Unlock()
+		return nil
+	}}
+	if mode >= 2 {
+		o.PrunePreFn = func(k int, v int64) {
+			if v == target {
+				started <- struct{}{}
+				<-gate
+			}
+		}
+		o.PrunePostFn = func(int, int64) {}
+	}
+	ca := cache.New[int, int64](o)
+	others := rng.Intn(3)
+	if mode >= 2 {
+		others = 0 // other entries would be expired by the same timer pass before or after the parked one
+	}
+	for k := 1; k <= others; k++ {
+		ca.Set(k, int64(k))
+	}
+	ca.Set(0, target)
+	wit := map[string]any{"batch": idx, "mode": mode, "cleanup_fails": fail, "other_entries": others, "age": age.String()}
+	viol := func(cls, detail string) { r.Violation("cache:"+cls, detail, wit) }
+	var delErr error
+	delDone := make(chan struct{})
+	if mode < 2 {
+		go func() {
+			if mode == 0 {
+				delErr = ca.Delete(0)
+			} else {
+				delErr = ca.DeleteAll()
+			}
+			close(delDone)
+		}()
+	} else {
+		close(delDone)
+	}
+	select {
+	case <-started:
+	case <-time.After(10 * time.Second):
+		r.Count("block_not_reached", 1)
+		close(gate)
+		<-delDone
+		return
+	}
+	r.Count("runs_block", 1)
+	type obs struct {
+		what string
+		bad  string
+	}
+	res := make(chan obs, 8)
+	nobs := 0
+	tUse := int64(0)
+	newVal := int64(0)
+	if mode < 2 {
+		nobs = 3
+		go func() {
+			v, err := ca.Get(0)
+			if err != nil || v != target {
+				res <- obs{"get", fmt.Sprintf("Get of the entry returned (%d, %v) while its cleanup had not returned", v, err)}
+			} else {
+				res <- obs{"get", ""}
+			}
+		}()
+		go func() {
+			l, _ := ca.List()
+			in := false
+			for _, k := range l {
+				in = in || k == 0
+			}
+			if !in {
+				res <- obs{"list", fmt.Sprintf("List %v lacks the entry while its cleanup had not returned", l)}
+			} else {
+				res <- obs{"list", ""}
+			}
+		}()
+		go func() {
+			if ca.IsEmpty() {
+				res <- obs{"isempty", "IsEmpty reported true while the cleanup of an entry had not returned"}
+			} else {
+				res <- obs{"isempty", ""}
+			}
+		}()
+	} else {
+		nobs = 1
+		tUse = now()
+		go func() {
+			if mode == 2 {
+				v, err := ca.Get(0)
+				if err != nil || v != target {
+					res <- obs{"get", fmt.Sprintf("Get of the expiring entry returned (%d, %v) before its cleanup could have run (pre hook parked)", v, err)}
+					return
+				}
+			} else {
+				newVal = target + 1
+				ca.Set(0, target+1)
+			}
+			res <- obs{"use", ""}
+		}()
+	}
+	// collect what returns while the gate is closed
+	got := 0
+	used := false
+	wait := time.After(300 * time.Millisecond)
+collect:
+	for got < nobs {
+		select {
+		case ob := <-res:
+			got++
+			r.Count("block_observations_before_release", 1)
+			if ob.bad != "" {
+				viol("entry invisible while its cleanup is in flight", ob.bad)
+			}
+			if ob.what == "use" || ob.what == "get" {
+				used = true
+			}
+		case <-wait:
+			break collect
+		}
+	}
+	tRelease := now()
+	close(gate)
+	<-delDone
+	for ; got < nobs; got++ {
+		<-res // these overlapped the release: no verdict
+		r.Count("block_observations_overlapping_release", 1)
+	}
+	if mode < 2 {
+		v, err := ca.Get(0)
+		mu.Lock()
+		cl := cleaned[target]
+		mu.Unlock()
+		switch {
+		case fail && (err != nil || v != target):
+			viol("entry removed although its cleanup reported an error", fmt.Sprintf("blocked cleanup returned an error, Get afterwards: (%d, %v), Delete returned %v", v, err, delErr))
+		case !fail && err == nil:
+			viol("entry kept after a successful cleanup by Delete", fmt.Sprintf("Get afterwards: (%d, %v)", v, err))
+		case !fail && !cl:
+			viol("entry removed without a successful cleanup of its value", "blocked cleanup")
+		}
+		r.Distinct("configs", fmt.Sprintf("block/%d/%v/%d", mode, fail, others))
+		return
+	}
+	// modes 2/3: give an eager cleanup the time to show itself, then judge starts of cleanups of the current value
+	time.Sleep(age / 3)
+	cur := target
+	if mode == 3 {
+		cur = newVal
+	}
+	if used {
+		mu.Lock()
+		for _, tp := range pruneStart[cur] {
+			r.Count("expiry_checked", 1)
+			if tp >= tRelease && tp-tUse < int64(age) {
+				mu.Unlock()
+				viol("entry expired before its age", fmt.Sprintf("value %d was used (mode %d) while the expiry pass waited in its pre hook; its cleanup started %v after that use, age is %v", cur, mode, time.Duration(tp-tUse), age))
+				mu.Lock()
+				break
+			}
+		}
+		mu.Unlock()
+		r.Count("block_uses_during_pre", 1)
+	}
+	r.Distinct("configs", fmt.Sprintf("block/%d/%v", mode, age))
+	_ = ca.DeleteAll()
+}
+
 func main() {
 	r := vh.Start()
 	_ = rand.Int
 	nc := r.N(320, 6000)
 	nl := r.N(120, 2500)
 	nk := r.N(48, 800)
-	vh.Parallel(nc+nl+nk, 12, func(i int) {
+	nb := r.N(96, 2000)
+	vh.Parallel(nc+nl+nk+nb, 12, func(i int) {
 		switch {
 		case i < nc:
 			concurrentRun(r, i)
 		case i < nc+nl:
 			lruRun(r, i-nc)
-		default:
+		case i < nc+nl+nk:
 			keepRun(r, i-nc-nl)
+		default:
+			blockRun(r, i-nc-nl-nk)
 		}
 	})
-	r.Count("runs", nc+nl+nk)
+	r.Count("runs", nc+nl+nk+nb)
+	r.Require("block_observations_before_release", int64(nb/2))
 	r.Require("cleanups_logged", 200)
 	r.Require("lru_comparisons", 50)
-	r.Finish("three workload families on the real cache.Cache with harness-owned callbacks: (1) concurrent Set/Get/Delete/DeleteAll by 1-4 workers on 6 keys (shared or owned), Age in {0,15,40ms}, Count in {0,1,2,3,10}, failing and slow cleanups, optional pre/post hooks; (2) sequential LRU scenarios with logical clocks; (3) keep-alive / failing-cleanup expiry scenarios. A case is one run; distinct = distinct configurations (age/count/failRate/workers/hooks/sharing)", "runs", "configs")
+	r.Finish("three workload families on the real cache.Cache with harness-owned callbacks: (1) concurrent Set/Get/Delete/DeleteAll by 1-4 workers on 6 keys (shared or owned), Age in {0,15,40ms}, Count in {0,1,2,3,10}, failing and slow cleanups, optional pre/post hooks; (2) sequential LRU scenarios with logical clocks; (3) keep-alive / failing-cleanup expiry scenarios; (4) parked callbacks: Delete/DeleteAll with the cleanup parked on a gate (observers must still see the entry, outcome follows the cleanup result) and timer expiry with the pre hook parked while the entry is used or replaced. A case is one run; distinct = distinct configurations (age/count/failRate/workers/hooks/sharing)", "runs", "configs")
 }
